@@ -1686,6 +1686,125 @@ def sec_repeated(run):
         run.notes["repeated_execution_crash"] = crashes + ["(refusal by exception: same column indexing, IndexError when a qubit id exceeds the number of measured columns)"]
 
 
+def sec_shots(run, rng):
+    """repeated execution with collapsing measurements, exact: every engine.M call of every shot is recorded (qubits, collapse flag,
+    random draws, returned sample); the Coq model ModelShot.run_shot, fed with the same draws, must return the same mid-circuit
+    and final samples; the per-gate results visible through the public API must be those samples, column by column"""
+    from qibo import Circuit, gates
+    from qibo.backends import CliffordBackend
+    b = CliffordBackend(engine="numpy")
+    eng = b.engine
+    a1, a2 = clifford_angles()
+    items, metas = [], []
+    api_bad = 0
+    nshots = 3
+    for j in range(30 if run.tier == "quick" else 150):
+        n = rng.randint(1, 4)
+        ncol = rng.randint(1, 2)
+        segs = [random_descs(rng, n, rng.randint(0, 3 * n), a1, a2) for _ in range(ncol + 1)]
+        c = Circuit(n)
+        steps = []          # ("g", gate) | ("c", M gate)
+        mids = []
+        for k in range(ncol + 1):
+            for d in segs[k]:
+                g = make_gate(d)
+                c.add(g)
+                steps.append(("g", g))
+            if k < ncol:
+                qs = rng.sample(range(n), rng.randint(1, n))
+                m = gates.M(*qs, collapse=True)
+                c.add(m)
+                mids.append(m)
+                steps.append(("c", m))
+        fq_all = rng.sample(range(n), rng.randint(1, n))
+        cut = rng.randint(1, len(fq_all))
+        finals = [fq_all[:cut]] + ([fq_all[cut:]] if cut < len(fq_all) else [])
+        fgates = [gates.M(*f) for f in finals]
+        for fg in fgates:
+            c.add(fg)
+        calls = []
+        orig = eng.M
+
+        def wrapped(state, qubits, nqubits, collapse=False, _orig=orig):
+            log = []
+            saved = eng.np
+            eng.np = _NpProxy(log)
+            try:
+                smp = _orig(state, qubits, nqubits, collapse)
+            finally:
+                eng.np = saved
+            calls.append((tuple(int(q) for q in qubits), bool(collapse), log, [int(v) for v in smp]))
+            return smp
+        eng.M = wrapped
+        try:
+            b.execute_circuit(c, nshots=nshots)
+        except Exception as e:
+            report(run, "shots:raises", f"execute_circuit_repeated raises {type(e).__name__}: {e}",
+                   {"kind": "shots", "n": n, "segs": segs}, concrete=True)
+            continue
+        finally:
+            eng.M = orig
+        per = ncol + 1
+        if len(calls) != nshots * per:
+            report(run, "shots:calls", f"unexpected number of engine.M calls ({len(calls)} for {nshots} shots x {per})", {"kind": "shots"}, concrete=False)
+            continue
+        # public API: per-gate results are the recorded samples, column by column in the order given to M
+        for i in range(nshots):
+            shot = calls[i * per:(i + 1) * per]
+            for k, m in enumerate(mids):
+                got = [int(v) for v in np.asarray(m.result.samples()[i]).ravel()]
+                srt = sorted(m.target_qubits)      # the gate measures sorted qubits and re-orders the bits to target order
+                want = [shot[k][3][srt.index(q)] for q in m.target_qubits]
+                if got != want or shot[k][0] != tuple(srt) or not shot[k][1]:
+                    api_bad += 1
+            fin = shot[-1]
+            if fin[0] != tuple(fq_all) or fin[1]:
+                api_bad += 1
+            pos = 0
+            for fg, f in zip(fgates, finals):
+                got = [int(v) for v in np.asarray(fg.result.samples())[i]]
+                if got != fin[3][pos:pos + len(f)]:
+                    api_bad += 1
+                pos += len(f)
+            # Coq: the same shot in the model
+            prog = []
+            k = 0
+            for kind, g in steps:
+                if kind == "g":
+                    prog.append(f"PGate {gate_coq(g)}")
+                else:
+                    prog.append(f"PCollapse {cnats(shot[k][0])} {cbools(shot[k][2])}")
+                    k += 1
+            ptxt = "(@nil step)" if not prog else "[" + ";\n   ".join(prog) + "]"
+            outs = "(@nil (list bool))" if not ncol else "[" + "; ".join(cbools(shot[k_][3]) for k_ in range(ncol)) + "]"
+            items.append((f"shot{j}_{i}", f"match run_shot {HALF()} {n} {ptxt} {cnats(fin[0])} {cbools(fin[2])} with "
+                                          f"Some (outs, s) => llbeq outs {outs} && lbeq s {cbools(fin[3])} | None => false end"))
+            metas.append((n, len(steps), [list(x[0]) for x in shot]))
+    if api_bad:
+        report(run, "shots:api", "the per-gate results of a repeated execution are not the samples the engine returned (column order / shot order)",
+               {"kind": "shots"}, concrete=False)
+    run.oblige(f"correspondence:public per-gate results of repeated execution == recorded engine samples, by column position ({len(items)} shots)",
+               api_bad == 0, "correspondence")
+    ok = True
+    hdr = COQ_HEADER + "From QV Require Import C12.ModelShot.\n"
+    for k0 in range(0, len(items), 150):
+        res_, out = run.coq_bools(f"Shots_{k0 // 150}.v", hdr, items[k0:k0 + 150], timeout=900)
+        if res_ is None:
+            ok = False
+            run.find("shots:compile", "shot correspondence file does not compile", {"log": out[-800:]}, concrete=False)
+            continue
+        for (lab, _), m in zip(items[k0:k0 + 150], metas[k0:k0 + 150]):
+            run.case(["shot"] + list(m))
+            if not res_[lab]:
+                ok = False
+                report(run, "shots:model", "a shot of the repeated execution differs from ModelShot.run_shot fed with the same random draws",
+                       {"kind": "shots", "case": list(m)}, concrete=False)
+    run.oblige(f"correspondence:every shot (gates, collapsing M with write-back, final sampling) == ModelShot.run_shot with the recorded draws "
+               f"({len(items)} shots)", ok, "correspondence")
+    if metas:
+        run.sample({"shot": {"n": metas[0][0], "steps": metas[0][1], "engine.M calls (qubits)": metas[0][2]}})
+
+
 # ---------------------------------------------------------------- stim engine
 STIM_OK = ["H", "S", "X", "Y", "Z", "I", "CNOT", "CY", "CZ", "SWAP", "iSWAP"]
 
@@ -1881,6 +2000,7 @@ def main(run):
     sec_reject(run, rng)
     sec_collapse(run, rng)
     sec_repeated(run)
+    sec_shots(run, rng)
     sec_stim(run, rng)
     sec_to_circuit(run, rng)
     run.notes.pop("reported_keys", None)
@@ -1991,6 +2111,8 @@ def replay(run, data):
         sec_collapse(run, random.Random(data.get("seed", 0)))
     elif kind == "repeated":
         sec_repeated(run)
+    elif kind == "shots":
+        sec_shots(run, random.Random(data.get("seed", 0)))
     elif kind in ("stim", "stim_controlled", "stim_idle"):
         sec_stim(run, random.Random(data.get("seed", 0)))
     elif kind == "reject":
